@@ -425,7 +425,11 @@ def run(chk):
                        "(DynamoOMPParallelLoopTrans, Dynamo0p3OMPLoopTrans, ACCLoopTrans, generic OMPLoopTrans, generic "
                        "OMPParallelLoopTrans) applied to every uncoloured loop, then regions added and code generated; "
                        "(2) random histories of <=6 transformations (those 5 + Dynamo0p3ColourTrans, OMPParallelTrans, "
-                       "ACCParallelTrans, ACCKernelsTrans) with random targets.  Invokes: synthesised LFRic kernels "
+                       "ACCParallelTrans, ACCKernelsTrans) with random targets, 40% of them run script-style with ONE options "
+                       "dictionary object per distinct option content shared by all steps; (3) systematic shared-options scripts: "
+                       "every ordered pair (T1,T2) of the 5 loop-parallelising transformations, alternate loops coloured, T1 on "
+                       "every colour/colours loop then T2 on every remaining loop, all with the SAME options dictionary object "
+                       "(synthesised invokes in quick; all invokes, both dm settings, both parities in thorough).  Invokes: synthesised LFRic kernels "
                        "(gh_inc/gh_readinc/gh_write/gh_readwrite/gh_read on continuous, any_space and discontinuous spaces, "
                        "operators, field vectors, all six stencil types with variable and literal extents, domain kernels, "
                        "built-ins) and bundled test algorithms of tests/test_files/dynamo0p3 chosen to cover every feature "
@@ -438,6 +442,10 @@ def run(chk):
         "options={'force': True} is excluded (it is by nature an override of the checks)",
         "an `acc loop` is parallel unless the directive text it EMITS carries the `seq` clause (read from "
         "ACCLoopDirective.begin_string(), not from the options passed)",
+        "frame condition: a step's behaviour depends only on the options the CALLER wrote into the dictionary it passes - "
+        "apply()/validate() never leave the caller's dictionary changed.  CHECKED on every shared-options history (dictionary "
+        "compared before/after each apply, also for refused steps); a breach is a broken correspondence and the shared-options "
+        "scripts turn it into a failing input",
         "targets are statement-level nodes of the invoke schedule (children of Schedules), addressed in pre-order",
         "the generic dependence analysis (DependencyTools.can_loop_be_parallelised) answers False without raising for an LFRic "
         "loop over cells whose kernel has an INC/READINC argument; CHECKED on every case (on the fresh schedule) and by the "
